@@ -325,6 +325,55 @@ def _loader_reads(chk, repo, ctx_fn, forwarders) -> Dict[str, str]:
     return reads
 
 
+def _guard_atoms(repo, cfg, fn, stmt, src_ok, forwarders, depth: int = 0):
+    """Atomic facts known at ``stmt`` as (expr, truth, cfg, function, stmt, src_ok) —
+    a test computed into a local is looked through, and a test delegated to a helper
+    method with a single ``return <expr>`` is expanded in the helper (two levels)."""
+    for e, pol in cfg.conditions(stmt):
+        yield from _expand_atom(repo, cfg, fn, stmt, e, pol, src_ok, forwarders, depth)
+
+
+def _expand_atom(repo, cfg, fn, stmt, e, pol, src_ok, forwarders, depth):
+    from ..cfg import atoms
+
+    if isinstance(e, ast.Name):
+        el = leaves(cfg, e, stmt)
+        if len(el) == 1 and el[0].kind == "expr" and not el[0].path and el[0].cfg is cfg:
+            e, stmt = el[0].expr, el[0].stmt
+            for e2, p2 in atoms(e, pol):
+                if e2 is not e:
+                    yield from _expand_atom(repo, cfg, fn, stmt, e2, p2, src_ok, forwarders, depth)
+                else:
+                    yield from _expand_call(repo, cfg, fn, stmt, e, pol, src_ok, forwarders, depth)
+            return
+    yield from _expand_call(repo, cfg, fn, stmt, e, pol, src_ok, forwarders, depth)
+
+
+def _expand_call(repo, cfg, fn, stmt, e, pol, src_ok, forwarders, depth):
+    from ..cfg import atoms
+
+    if isinstance(e, ast.Call) and depth < 2:
+        r = method_of(repo, e)
+        if r is not None and id(r[1]) not in forwarders:
+            callee = r[1]
+            rets = [x for x in walk_local(callee) if isinstance(x, ast.Return)]
+            if len(rets) == 1 and rets[0].value is not None and rets[0] is callee.body[-1]:
+                b = bind_args(e, callee, bound=is_method_bound(e, callee))
+                ccfg = cfg_of(callee)
+
+                def src_ok2(x, at, _b=b, _ccfg=ccfg, _outer=src_ok, _stmt=stmt):
+                    q = is_param(_ccfg, x, at)
+                    return q is not None and _b.get(q) is not None and _outer(_b[q], _stmt)
+
+                rv = rets[0].value
+                while isinstance(rv, ast.Call) and call_name(rv) == "bool" and len(rv.args) == 1 and not rv.keywords:
+                    rv = rv.args[0]
+                for e2, p2 in atoms(rv, pol):
+                    yield from _expand_atom(repo, ccfg, callee, rets[0], e2, p2, src_ok2, forwarders, depth + 1)
+                return
+    yield e, pol, cfg, fn, stmt, src_ok
+
+
 def _fast_path(chk, repo, proc, cls_mod, cls, ctx_fn) -> None:
     cfg = cfg_of(proc)
     tf_fields = ctor_fields(repo, repo.cls(BASE, "TemplatedFile"))
@@ -347,15 +396,10 @@ def _fast_path(chk, repo, proc, cls_mod, cls, ctx_fn) -> None:
         absent: Set[str] = set()
         notes = []
         reads_in_guard: Set[str] = set()
-        for e, pol in cfg.conditions(r):
-            if isinstance(e, ast.Name):
-                # a test computed into a local first (``has_markup = re.search(..)``)
-                el = leaves(cfg, e, r)
-                if len(el) == 1 and el[0].kind == "expr" and not el[0].path:
-                    e = el[0].expr
+        for e, pol, acfg, afn, at, src_ok in _guard_atoms(repo, cfg, proc, r, lambda x, st: is_param(cfg, x, st, p) is not None, forwarders):
             if isinstance(e, ast.Call):
-                rc = regex_call(cfg, e)
-                if rc is not None and rc.args and is_param(cfg, rc.args[0], r, p):
+                rc = regex_call(acfg, e)
+                if rc is not None and rc.args and src_ok(rc.args[0], at):
                     if pol:
                         continue
                     if rc.fn != "search":
@@ -377,10 +421,10 @@ def _fast_path(chk, repo, proc, cls_mod, cls, ctx_fn) -> None:
                     chk.sample({"rule": "R08a", "fast_path_pattern": rc.pattern, "language": sorted(lang)})
                     continue
                 if not pol:
-                    k = _read_key(repo, proc, e, forwarders)
+                    k = _read_key(repo, afn, e, forwarders)
                     if k is not None:
                         reads_in_guard.add(k)
-            elif isinstance(e, ast.Compare) and len(e.ops) == 1 and isinstance(const(e.left), str) and is_param(cfg, e.comparators[0], r, p):
+            elif isinstance(e, ast.Compare) and len(e.ops) == 1 and isinstance(const(e.left), str) and src_ok(e.comparators[0], at):
                 if (isinstance(e.ops[0], ast.In) and not pol) or (isinstance(e.ops[0], ast.NotIn) and pol):
                     absent.add(const(e.left))
         for o in OPENERS:
@@ -624,7 +668,9 @@ def _r08b_templaters(chk, repo, tracer, analyzer, cons) -> Tuple[Optional[ast.AS
     closures: List[Tuple[ast.AST, bool]] = []  # (nested def, must_render)
     crf_fn = None
     n_sites = 0
-    for m, c in repo.subclasses_of("JinjaTemplater"):
+    templaters = _jinja_templater_classes(repo)
+    chk.count("R08b.templater_classes", len(templaters))
+    for m, c in templaters:
         for item in ast.walk(c):
             if not isinstance(item, FuncNode) or enclosing_class(item) is not c:
                 continue
@@ -726,7 +772,7 @@ def _r08b_templaters(chk, repo, tracer, analyzer, cons) -> Tuple[Optional[ast.AS
             chk.require(ok, "R08b", r, f"slice_file's third component: {why}", detail="slice_file: returns trace(analyze(render_func) of raw_str).templated_str", construct=con)
     # ---- analyzer factory of every templater class -------------------------------------
     if ga_fn is not None:
-        for m, c in repo.subclasses_of("JinjaTemplater"):
+        for m, c in templaters:
             for item in c.body:
                 if isinstance(item, FuncNode) and item.name == ga_fn.name:
                     icfg = cfg_of(item)
@@ -789,6 +835,28 @@ def _r08b_templaters(chk, repo, tracer, analyzer, cons) -> Tuple[Optional[ast.AS
     return crf_fn, ga_fn
 
 
+def _jinja_templater_classes(repo):
+    """JinjaTemplater and every class deriving from it (found by a fixpoint over the
+    modules that mention a known class name, so dialect modules are never walked)."""
+    names = {"JinjaTemplater"}
+    found: Dict[int, Tuple[object, ast.ClassDef]] = {}
+    changed = True
+    while changed:
+        changed = False
+        for m in repo.modules.values():
+            if not any(n in m.text for n in names):
+                continue
+            for q, c in m.classes():
+                if id(c) in found:
+                    continue
+                if any(cc.name == "JinjaTemplater" and mm.relpath == JINJA for mm, cc in repo.mro(m, c)):
+                    found[id(c)] = (m, c)
+                    if c.name not in names:
+                        names.add(c.name)
+                        changed = True
+    return list(found.values())
+
+
 def _first_field_of_trace(repo, tracer) -> Optional[str]:
     trace = _method(tracer, "trace")
     m = module_of(tracer)
@@ -812,6 +880,11 @@ def run(chk) -> None:
              "the render closure is env.from_string(<parameter>).render() on the checked environment")
     chk.rule("R08c", "the 'no markup' early return is conjoined with the negation of every macro/library loader switch read on the way to the live context")
 
+    chk.assumptions.append(
+        "Sources reach the templater with '\\n' newlines only (the linter normalises CR/CRLF before templating: C11 R11c); Jinja itself rewrites "
+        "CR/CRLF in template data to newline_sequence, so on an un-normalised string the fast path and a Jinja render differ by construction."
+    )
+    chk.assumptions.append("jinja2's defaults are the documented ones ('{{', '{%', '{#', no line statements, keep_trailing_newline=False); environments built by dbt itself are outside the analysed tree.")
     cons = _r08a_envs(chk, repo)
     tracer, analyzer, src_attr, rf_attr = _r08b_tracer(chk, repo)
     _r08b_chain(chk, repo, tracer, analyzer, src_attr, rf_attr)
